@@ -18,7 +18,7 @@ over every input text. The supporting invariant (`Ecal.Parse.specs`, one inducti
 /-- what the fuel-indexed parser returns for a given fuel -/
 theorem outcome (fuel : Nat) (ts : List Tok) :
     (∃ t, parseToksWith fuel ts = (some t, none) ∧ okTree t = true) ∨
-    (∃ e, parseToksWith fuel ts = (none, some e) ∧ e ≠ .panic ∧ (4 * ts.length + 4 ≤ fuel → e ≠ .fuel)) := by
+    (∃ e, parseToksWith fuel ts = (none, some e) ∧ e ≠ .panic ∧ (4 * ts.length + 4 ≤ fuel → e ≠ .fuel) ∧ EPos ts e) := by
   have h := parseBody_spec fuel ts
   unfold Sat at h
   unfold parseToksWith
@@ -32,7 +32,7 @@ theorem outcome (fuel : Nat) (ts : List Tok) :
     takes a token). -/
 theorem parse_total (ts : List Tok) (fuel : Nat) (hf : 4 * ts.length + 4 ≤ fuel) :
     (parseToksWith fuel ts).2 ≠ some .fuel := by
-  rcases outcome fuel ts with ⟨t, h, _⟩ | ⟨e, h, _, he⟩
+  rcases outcome fuel ts with ⟨t, h, _⟩ | ⟨e, h, _, he, _⟩
   · rw [h]; simp
   · rw [h]; simp; exact he hf
 
@@ -42,7 +42,7 @@ theorem parse_total_default (ts : List Tok) : (parseToks ts).2 ≠ some .fuel :=
 /-- **parse_never_panics.** No nil dereference inside the parser, for every token list (the four
     inputs `a ; "`, `a["` … of the repaired defects were exactly such dereferences). -/
 theorem parse_never_panics (ts : List Tok) : (parseToks ts).2 ≠ some .panic := by
-  rcases outcome (fuelFor ts) ts with ⟨t, h, _⟩ | ⟨e, h, hp, _⟩
+  rcases outcome (fuelFor ts) ts with ⟨t, h, _⟩ | ⟨e, h, hp, _, _⟩
   · unfold parseToks; rw [h]; simp
   · unfold parseToks; rw [h]; simp; exact hp
 
@@ -51,13 +51,37 @@ theorem parse_never_panics (ts : List Tok) : (parseToks ts).2 ≠ some .panic :=
     "out of fuel". -/
 theorem parse_error_xor_tree (ts : List Tok) :
     (∃ t, parseToks ts = (some t, none)) ∨ (∃ kind line col, parseToks ts = (none, some (.perr kind line col))) := by
-  rcases outcome (fuelFor ts) ts with ⟨t, h, _⟩ | ⟨e, h, hp, hfu⟩
+  rcases outcome (fuelFor ts) ts with ⟨t, h, _⟩ | ⟨e, h, hp, hfu, _⟩
   · exact Or.inl ⟨t, h⟩
   · right
     cases e with
     | perr k l c => exact ⟨k, l, c, h⟩
     | panic => exact absurd rfl hp
     | fuel => exact absurd rfl (hfu (by unfold fuelFor; omega))
+
+/-- **error_position_from_input** ("a positioned error"). The kind of a returned error is one of the six
+    kinds of parser/parsererror.go, and its line/column are those of a token OF THE INPUT — or the error is
+    the `Unexpected end` which `p.next()` builds from the zero token once the token stream is exhausted
+    (Line 0, Pos 0: printed without a position, parsererror.go:48; this case deviates from "positioned
+    error" and is the known finding `unexpected-end-unpositioned`, pinned by parser_main_test.go:144).
+    Which token, per kind (read off the model, `Lemmas/ParserSat.lean`, `ParserMain.lean`):
+    `Lexical error` / `Unknown term`: the offending token itself; `Term cannot start an expression`: the token
+    which was to start the expression; `Term can only start an expression`: the token found in operator
+    position on the same line; `Unexpected term`: the token found instead of the expected one (or the token
+    in front of it for `acceptChild`); positioned `Unexpected end`: the EOF token where another token was
+    required, or the first extra token after a complete program. -/
+theorem error_position_from_input (ts : List Tok) (k : String) (l : Nat) (c : Int)
+    (h : parseToks ts = (none, some (.perr k l c))) :
+    sixKinds k ∧ ((∃ t ∈ ts, t.line = l ∧ t.col = c) ∨ (k = "Unexpected end" ∧ l = 0 ∧ c = 0)) := by
+  rcases outcome (fuelFor ts) ts with ⟨t, h', _⟩ | ⟨e, h', _, _, hpos⟩
+  · unfold parseToks at h; rw [h'] at h; simp at h
+  · unfold parseToks at h; rw [h'] at h; simp at h; subst h; exact hpos
+
+/-- non-vacuity: `a +` + EOF gives the unpositioned end, `)` + EOF an error at the token `)` -/
+example : (parseToks [⟨7, 0, [97], true, false, 0, 1, 1⟩, ⟨33, 2, [43], false, false, 0, 1, 3⟩,
+    ⟨1, 3, [], false, false, 0, 1, 4⟩]).2 = some (.perr "Unexpected end" 0 0) := by decide
+example : (parseToks [⟨23, 0, [41], false, false, 0, 1, 1⟩, ⟨1, 1, [], false, false, 0, 1, 2⟩]).2
+    = some (.perr "Term cannot start an expression" 1 1) := by decide
 
 /-- the same for source text through the lexer model -/
 theorem parse_text_error_xor_tree (input : List Nat) :
@@ -115,7 +139,7 @@ theorem parse_text_wellformed (input : List Nat) (t : Node) (h : parse input = (
     induction `Ecal.Parse.specs`. -/
 theorem parse_wellformed_partial (ts : List Tok) (t : Node) (h : parseToks ts = (some t, none)) :
     okTree t = true := by
-  rcases outcome (fuelFor ts) ts with ⟨t', h', hn⟩ | ⟨e, h', _⟩
+  rcases outcome (fuelFor ts) ts with ⟨t', h', hn⟩ | ⟨e, h', _, _, _⟩
   · unfold parseToks at h; rw [h'] at h; simp at h; subst h; exact hn
   · unfold parseToks at h; rw [h'] at h; simp at h
 
